@@ -102,7 +102,7 @@ func genLifetime(t *rapid.T) Lifetime {
 var delayBuckets = [][2]int{{0, 0}, {1, 60}, {400, 600}, {950, 1050}, {1950, 2050}, {2900, 3100}, {4000, 9000}, {maxDelay, maxDelay}}
 
 func genBeh(t *rapid.T) Beh {
-	b := Beh{Kind: rapid.SampledFrom([]int{behSCT, behSCT, behSCT, behSCT, behSCT, behSCT, behSCT, behSCT, behSCT, behErr, behErr, behErr, behHang, behStuck}).Draw(t, "kind")}
+	b := Beh{Kind: rapid.SampledFrom([]int{behSCT, behSCT, behSCT, behSCT, behSCT, behSCT, behSCT, behSCT, behSCT, behErr, behErr, behErr, behGarbled, behGarbled, behHang, behStuck}).Draw(t, "kind")}
 	if b.Kind != behHang && b.Kind != behStuck {
 		bk := delayBuckets[rapid.IntRange(0, len(delayBuckets)-1).Draw(t, "bucket")]
 		b.DelayMs = rapid.IntRange(bk[0], bk[1]).Draw(t, "delay")
